@@ -210,11 +210,17 @@ class PortOracle(UnrollMixin, Hooks):
         return None
 
 
+STALE_NAME = Opaque('PORT_NAME_OF_AN_EARLIER_SEARCH', (), 'str')
+
+
 def run_fn(prog, fn, hooks, args=None, self_cls=None):
     it = Interp(prog, hooks)
     if fn.cls is not None:
         it.self_cls = self_cls or fn.cls
-        return it.run(fn, [], args or {}, self_obj=ObjRef('self', it.self_cls))
+        # the object may have searched before: what it found then must not survive a search
+        # that finds nothing now
+        st = State(fields={('self', 'port_name'): STALE_NAME})
+        return it.run(fn, [], args or {}, st=st, self_obj=ObjRef('self', it.self_cls))
     return it.run(fn, [], args or {})
 
 
